@@ -92,6 +92,8 @@ def make_run(cfg):
                         got["a"].append(p.track("A", cfg["tracked"]))
                     for _ in range(cfg["untracked"]):
                         got["a"].append(p.untrack_last("A"))
+                    if cfg.get("churn"):
+                        got["a"].append(("addresses-reused", p.churn("A")))
                     for si in range(cfg.get("streams", 0)):
                         it = p.gen(3)          # an item stream that this connection leaves unfinished
                         iters.append(it)
@@ -302,6 +304,10 @@ def configs(quick):
                 for linger in (0, 30):
                     out.append({"server": server, "ending": ending, "tracked": 1, "untracked": 0, "other": True, "streams": streams, "linger": linger, "p": 1 if (streams == 1 or not quick) else 0,
                                 "r": 1, "horizon": 4000})
+    # a tracked resource that is dropped and collected, and a new one tracked right after it (at the same address, as CPython does)
+    for server in ("multiplex", "thread"):
+        for ending in ("release", "reset@40"):
+            out.append({"server": server, "ending": ending, "tracked": 1, "untracked": 0, "other": True, "churn": True, "p": 1 if quick else 1, "r": 1, "horizon": 4000})
     # a remote method that ends with a BaseException which is no Exception (SystemExit): the thread server's connection ends there; the
     # hook, the tracked resources, the session instance and the socket are judged (the multiplex server's loop itself ends with it, so
     # there is no running daemon left to judge)
